@@ -45,6 +45,7 @@ pub fn targets() -> Vec<Target> {
         Target { name: "fai", seeds: fai_seeds, run: run_fai },
         Target { name: "bgzf", seeds: bgzf_seeds, run: run_bgzf },
         Target { name: "cram", seeds: cram_seeds, run: run_cram },
+        Target { name: "cram-resealed", seeds: cram_raw_seeds, run: run_cram_resealed },
     ]
 }
 
@@ -404,9 +405,50 @@ fn run_bgzf(x: &[u8]) {
     let mut rd = noodles_bgzf::io::Reader::new(std::io::Cursor::new(x));
     for vp in [0u64, 5, 1 << 16, (60u64 << 16) | 3, u64::MAX] { let _ = rd.seek(noodles_bgzf::VirtualPosition::from(vp)); let _ = rd.fill_buf().map(|b| b.len()); let mut b = [0u8; 8]; let _ = rd.read(&mut b); }
 }
+// ---- CRAM with UNCOMPRESSED blocks, and every substitution RE-SEALED: the CRC32 of the container header or of the block that holds the
+// substituted byte (by the layout of the unmutated seed) is recomputed, so the corruption reaches the slice / record decoder instead of
+// stopping at a checksum.  Truncations are run as they are.
+fn cram_raw_seeds() -> Vec<Vec<u8>> {
+    use sam::alignment::io::Write as _;
+    use noodles_cram::container::{block_content_encoder_map::Builder as MapBuilder, compression_header::data_series_encodings::DataSeries as D};
+    let STANDARD_DATA_SERIES = [D::BamFlags, D::CramFlags, D::ReferenceSequenceIds, D::ReadLengths, D::AlignmentStarts, D::ReadGroupIds, D::Names, D::MateFlags, D::MateReferenceSequenceIds, D::MateAlignmentStarts, D::TemplateLengths, D::MateDistances, D::TagSetIds, D::FeatureCounts, D::FeatureCodes, D::FeaturePositionDeltas, D::DeletionLengths, D::StretchesOfBases, D::StretchesOfQualityScores, D::BaseSubstitutionCodes, D::InsertionBases, D::ReferenceSkipLengths, D::PaddingLengths, D::HardClipLengths, D::SoftClipBases, D::MappingQualities, D::Bases, D::QualityScores];
+    static SEED: std::sync::OnceLock<Vec<u8>> = std::sync::OnceLock::new();
+    vec![SEED.get_or_init(|| {
+        let header = sam_header();
+        let mut rd = sam::io::Reader::new(SAM_BODY.as_bytes());
+        let mut mb = MapBuilder::default().set_core_data_encoder(None).set_default_encoder(None);
+        for ds in STANDARD_DATA_SERIES.iter() { mb = mb.set_data_series_encoder(*ds, None); }
+        let mut w = noodles_cram::io::writer::Builder::default().set_reference_sequence_repository(cram_repo()).set_block_content_encoder_map(mb.build()).build_from_writer(Vec::new());
+        w.write_header(&header).unwrap();
+        for r in rd.record_bufs(&header) { let r = r.unwrap(); w.write_alignment_record(&header, &r).unwrap(); }
+        w.try_finish(&header).unwrap();
+        w.get_ref().clone() }).clone()]
+}
+fn crc32(x: &[u8]) -> u32 { let mut c = 0xffff_ffffu32; for &b in x { c ^= b as u32; for _ in 0..8 { c = if c & 1 != 0 { (c >> 1) ^ 0xedb8_8320 } else { c >> 1 }; } } !c }
+/// (start, end) of every CRC-protected region of the seed: container headers and blocks; the CRC32 is the 4 bytes at `end`
+fn cram_sealed_regions(b: &[u8]) -> Vec<(usize, usize)> {
+    let mut out = Vec::new();
+    let Some(conts) = crate::truncation::cram_containers(b) else { return out; };
+    for (start, hl, len, _) in conts {
+        out.push((start, start + hl - 4));
+        let (mut p, end) = (start + hl, start + hl + len);
+        while p < end { let bs = p; p += 2; if crate::truncation::itf8_pub(b, &mut p).is_none() { break; } let Some(size) = crate::truncation::itf8_val_pub(b, &mut p) else { break; }; if crate::truncation::itf8_pub(b, &mut p).is_none() { break; } p += size as usize; if p + 4 > b.len() { break; } out.push((bs, p)); p += 4; }
+    }
+    out
+}
+fn run_cram_resealed(x: &[u8]) {
+    static LAYOUT: std::sync::OnceLock<(Vec<u8>, Vec<(usize, usize)>)> = std::sync::OnceLock::new();
+    let (seed, regions) = LAYOUT.get_or_init(|| { let s = cram_raw_seeds().remove(0); let r = cram_sealed_regions(&s); (s, r) });
+    if x.len() != seed.len() { run_cram(x); return; }
+    let mut y = x.to_vec();
+    if let Some(p) = (0..x.len()).find(|&i| x[i] != seed[i]) { if let Some(&(a, e)) = regions.iter().find(|&&(a, e)| a <= p && p < e) { let c = crc32(&y[a..e]); y[e..e + 4].copy_from_slice(&c.to_le_bytes()); } }
+    run_cram(&y);
+}
 fn run_cram(x: &[u8]) {
+    let dbg = std::env::var_os("VERIF_DEBUG_CRAM").is_some();
     let mut rd = noodles_cram::io::reader::Builder::default().set_reference_sequence_repository(cram_repo()).build_from_reader(x);
-    let Ok(h) = rd.read_header() else { return; };
+    let h = match rd.read_header() { Ok(h) => h, Err(e) => { if dbg { eprintln!("DBG header: {e}"); } return; } };
     let mut n = 0;
-    for r in rd.records(&h) { n += 1; if n > MAX_RECORDS { break; } match r { Ok(r) => touch_alignment(&h, &r), Err(_) => break } }
+    for r in rd.records(&h) { n += 1; if n > MAX_RECORDS { break; } match r { Ok(r) => touch_alignment(&h, &r), Err(e) => { if dbg { eprintln!("DBG record {n}: {e}"); } break } } }
+    if dbg { eprintln!("DBG done {n}"); }
 }
